@@ -3,6 +3,7 @@ import itertools
 import re
 
 ID = 'C16'
+LEAN_MODULES = ['C16', 'C16b']
 RULE = ('one case = the real watch_membership_changes task (hook H3) fed with a sequence of membership snapshots over ids 0..3 (joins, leaves, address changes, rejoin; the local node 0 always present), '
         'real tokio watch channel and real MembershipChanges subscriber streams (what membership_changes() returns) created at every position and polled at chosen positions; observed: every delta a subscriber receives and its accumulated '
         'live map at the end, compared with the Lean model and with the specification "live map = other members of the last snapshot"; quick: all snapshot sequences of length <=3 over a 6-snapshot alphabet '
@@ -10,7 +11,7 @@ RULE = ('one case = the real watch_membership_changes task (hook H3) fed with a 
 ASSUMPTIONS = ['the membership layer delivers snapshots (states), the watcher republishes each one it has processed and every subscriber stream turns them into deltas against what it handed out last: as in datacake-node/src/lib.rs',
                'tokio::sync::watch keeps only the latest value (modelled as a version + value cell)']
 TRUSTED_BASE = ['correspondence: dcharness (real watch_membership_changes + tokio watch + MembershipChanges stream) vs dcdriver (Datacake.Membership model)']
-THEOREM_NOTE = 'Datacake.Membership.watchStep / delta / Chan / Sub.poll (Model/Membership.lean)'
+THEOREM_NOTE = 'Datacake.Membership.watchStep / delta / Chan / Sub.poll (Model/Membership.lean); Datacake.Replication.Dist.tick / Poller.cycle / Pipeline.forward (Model/Replication.lean)'
 JOBS = 8
 SNAPS = ['0:100', '0:100,1:101', '0:100,1:101,2:102', '0:100,2:102', '0:100,1:111', '0:100,1:101,2:102,3:103']
 
